@@ -529,7 +529,12 @@ def growth_scripts() -> list[tuple[str, str]]:
                        ("cut-in-parens", "led.blink(250,"), ("cut-in-brackets", "xs = [1, 2,\n"), ("cut-after-def-header", "def f(a):"), ("cut-after-if-header", "if led.get_state():\n"),
                        ("cut-after-while-true", "while True:"), ("cut-after-decorator", "@staticmethod\n"), ("cut-after-else", "if 1:\n    led.on()\nelse:"),
                        ("cut-after-operator", "x = 1 +"), ("cut-after-dot", "led."), ("cut-after-equals", "x ="), ("cut-after-comma-tuple", "a, b = 1,"),
-                       ("cut-in-fstring", "mon.write(f\"{1 + "), ("cut-after-try", "try:\n    led.on()\n"), ("cut-after-for", "for i in range(3):\n")):
+                       ("cut-in-fstring", "mon.write(f\"{1 + "), ("cut-after-try", "try:\n    led.on()\n"),
+                       # statements that are legal Python where they stand but mean nothing there (a `global` outside a function, ...)
+                       ("global-at-file-scope", "count = 0\nglobal count\ncount = 1\nled.on()\n"), ("global-in-main-loop", "count = 0\nwhile True:\n    global count\n    count += 1\n    led.toggle()\n"),
+                       ("global-in-branch", "count = 0\nif count == 0:\n    global count\n    led.on()\n"), ("global-tab-in-helper", "count = 0\ndef bump():\n    global\tcount\n    count = count + 1\nbump()\n"),
+                       ("global-two-names", "a = 0\nb = 0\nglobal a, b\nled.on()\n"), ("pass-at-file-scope", "pass\npass\nled.on()\n"), ("nonlocal-at-file-scope", "nonlocal count\n"),
+                       ("return-at-file-scope", "led.on()\nreturn\n"), ("continue-at-file-scope", "led.on()\ncontinue\n"), ("break-at-file-scope", "led.on()\nbreak\n"), ("cut-after-for", "for i in range(3):\n")):
         out.append((name, PRE + text))
     return out
 
